@@ -10,6 +10,7 @@ CONSTANTS
   ChunkPts = {}
   ResetChoices <- RepairedOnly
   TamperTags <- AllTags
+  CacheChoices = {"none"}
   Concurrent = FALSE
   RecordHist = TRUE
 INVARIANT Emit
